@@ -133,6 +133,11 @@ pub fn run(prop: &E1Prop, tier: Tier) -> i32 {
 
     // development aid: VERIF_ONLY=T2 runs the metamorphic tier alone, VERIF_T2_CASES overrides its size
     let only_t2 = std::env::var("VERIF_ONLY").map_or(false, |v| v == "T2");
+    if std::env::var("VERIF_ONLY").map_or(false, |v| v == "R0") {
+        // development aid: the regression tier alone (used to confirm that a saved input fails on the tree before its fix)
+        eprintln!("[{}] R0 only: {} evaluations, {} violations", prop.id, stats.evaluations, rep.violations);
+        return rep.exit_code();
+    }
     // 2. T0: corpus x catalogue
     if prop.use_t0 && !only_t2 {
         t0(prop, &findings, &mut rep, &mut stats);
@@ -226,11 +231,16 @@ fn t0(prop: &E1Prop, findings: &[Finding], rep: &mut Reporter, stats: &mut Stats
         (v, case.hash64(), out)
     });
     let mut known_hits: std::collections::BTreeMap<String, usize> = Default::default();
+    let mut stale: std::collections::BTreeMap<String, usize> = Default::default();
     for ((f, c), (v, h, out)) in items.iter().zip(results.into_iter()) {
         let key = format!("{}|{}", f.name, c.label());
         match v {
             Verdict::Pass { nontrivial } => {
                 stats.count("T0-corpus");
+                if let Some(fd) = findings.iter().find(|fd| fd.pairs.contains(&key)) {
+                    // a pinned pair of a known finding that holds now: reported as a note so that the list can be pruned
+                    *stale.entry(fd.id.clone()).or_default() += 1;
+                }
                 if nontrivial {
                     stats.nontrivial.insert(h);
                 }
@@ -252,6 +262,9 @@ fn t0(prop: &E1Prop, findings: &[Finding], rep: &mut Reporter, stats: &mut Stats
                 }
             }
         }
+    }
+    for (id, n) in stale {
+        stats.notes.push(format!("{n} pinned corpus pairs of {id} hold on this tree"));
     }
     for (id, n) in known_hits {
         let what = findings.iter().find(|f| f.id == id).map(|f| f.what.clone()).unwrap_or_default();
@@ -327,7 +340,11 @@ fn t1(prop: &E1Prop, seed: u64, cases: u32, rep: &mut Reporter, stats: &mut Stat
                 }
                 Verdict::Skip(why) => {
                     if counting {
-                        st.borrow_mut().skip(why);
+                        if why.starts_with("KF-") {
+                            *st.borrow_mut().excluded.entry(why.to_string()).or_default() += 1;
+                        } else {
+                            st.borrow_mut().skip(why);
+                        }
                     }
                     Ok(())
                 }
@@ -519,7 +536,11 @@ fn t2(prop: &E1Prop, seed: u64, cases: u32, findings: &[Finding], rep: &mut Repo
                 }
                 Verdict::Skip(why) => {
                     if counting {
-                        st.borrow_mut().skip(why);
+                        if why.starts_with("KF-") {
+                            *st.borrow_mut().excluded.entry(why.to_string()).or_default() += 1;
+                        } else {
+                            st.borrow_mut().skip(why);
+                        }
                     }
                     Ok(())
                 }
